@@ -60,6 +60,33 @@ def gen_pyfmt(idx: int, lintable: bool = False) -> dict:
     return {"source": "".join(parts), "features": sorted(feats), "context": PY_CONTEXT}
 
 
+# second python-format flavour (added after seed C07-b slipped through): conversion AND format spec on the same
+# field, fill/align/sign/grouping/precision specs, index / attribute access.  Own rng namespace, so the case ids
+# (and case-keyed findings) of the first flavour do not move.
+PY_FIELDS2 = [
+    "{tbl!r:>12}", "{num!s:>4}", "{tbl!s:<10}", "{flt!r:>8}", "{tbl!a}", "{tbl!r:^14}", "{num!r:03}", "{col!s:_<9}", "{tbl!s:.3}",
+    "{tbl:*^12}", "{num:+d}", "{num:x}", "{flt:08.3f}", "{flt:e}", "{num:,}", "{tbl:.4}", "{num:>{num}}", "{lst[0]}", "{lst[1]!r:>6}", "{tbl}", "{col}",
+]
+PY_CONTEXT2 = dict(PY_CONTEXT, lst=["x0", "y1"])
+
+
+def gen_pyfmt2(idx: int) -> dict:
+    r = rng("pyfmt2", 1, idx)
+    parts = []
+    feats = {"py2"}
+    for _ in range(r.randint(1, 6)):
+        if r.random() < 0.5:
+            parts.append(r.choice([l for l in PY_LITS if "{" not in l and "}" not in l]))
+        else:
+            f = r.choice(PY_FIELDS2)
+            if "!" in f and ":" in f:
+                feats.add("conv_and_spec")
+            parts.append(f)
+    if r.random() < 0.5:
+        parts.append("\n")
+    return {"source": "".join(parts), "features": sorted(feats), "context": PY_CONTEXT2}
+
+
 PH_STYLES = {
     # style: (list of parameter spellings, list of look-alikes that must NOT match)
     "colon": ([":name", ":p1", ":user_id"], ["::int", "a:b", "\\:esc", "'x':y"]),
